@@ -30,7 +30,7 @@ RULES = {
     "C05.ONCE": "premise: a child is polled only while Pending and marked in the poll in which it resolves",
     "C05.ERR": "Ready(Err) edge => same-call return of Ready(Err(that child's error)), consumed := true, no further child poll",
     "C05.OK": "every Ready(Err(..)) return carries the Err payload of a child polled in this call",
-    "C05.DISCARD": "the error path takes no output slot and returns nothing but the error; the destructor drops every Ready slot and every Pending child on every path (values already produced are dropped, not leaked)",
+    "C05.DISCARD": "the error path takes no output slot and returns nothing but the error; the destructor drops every Ready slot and every Pending child on every path (values already produced are dropped, not leaked); the error path resets no slot state but the failed child's own (no set_all_none / set_all_pending behind an Err edge), and the per-child transitions of C02.TRANS hold for the try_join units",
 }
 
 
@@ -49,10 +49,11 @@ def run(ctx):
             joinlike.rule_result(ctx, M, u, "C05.POS")
             joinlike.rule_cnt(ctx, M, u, "C05.CNT")
             rule_err(ctx, M, u)
-            with ctx.renamed({"C03.GUARD": "C05.ONCE", "C03.MARK": "C05.ONCE", "C02.DROP": "C05.DISCARD"}):
+            with ctx.renamed({"C03.GUARD": "C05.ONCE", "C03.MARK": "C05.ONCE", "C02.DROP": "C05.DISCARD", "C02.TRANS": "C05.DISCARD", "C02.QUIET": "C05.DISCARD"}):
                 c03.rule_guard(ctx, u)
                 c03.rule_mark(ctx, u)
                 c02.rule_drop(ctx, M, u)
+                c02.rule_trans(ctx, M, u)
             flow.rule_integrity(ctx, u.bi, "C05.POS", u.where, ("Ready(Ok)",), "the Ok output")
             flow.rule_integrity(ctx, u.bi, "C05.OK", u.where, ("Ready(Err)",), "the returned error")
             if u.container in ("array", "vec"):
@@ -121,6 +122,11 @@ def rule_err(ctx, M, u):
         wr = sorted(b for b, slot, idx, v, w in c02.slot_writes(bi) if b in r2)
         ctx.check(not tk and not wr, "C05.DISCARD", u.where, "%s: error path takes / writes no output slot" % c.label, site=c.where,
                   path=common.fmt_blocks(bi, tk + wr))
+        # the destructor finds the values the *other* children produced through their slot states: a whole-table reset on the
+        # error path (set_all_none / set_all_pending) makes it skip them - they leak instead of being dropped (seed C05-q)
+        rs = sorted(b for b, variant, w in scan.state_set_all(bi) if b in r2)
+        ctx.check(not rs, "C05.DISCARD", u.where, "%s: error path leaves the other children's slot states to the destructor (no whole-table reset)" % c.label,
+                  site=c.where, path=common.fmt_blocks(bi, rs))
     loose = [r for r in err_rets if r[0] not in claimed]
     ctx.check(bool(err_rets) and not loose, "C05.OK", u.where, "every Ready(Err) return carries a polled child's own error",
               site=u.body.span, path=common.fmt_blocks(bi, [r[0] for r in loose]))
